@@ -843,13 +843,17 @@ class vDuration(TimeBase):
             raise ValueError(f'Invalid iCalendar duration: {ical}')
 
         sign, weeks, days, hours, minutes, seconds = match.groups()
-        value = timedelta(
-            weeks=int(weeks or 0),
-            days=int(days or 0),
-            hours=int(hours or 0),
-            minutes=int(minutes or 0),
-            seconds=int(seconds or 0)
-        )
+        try:
+            value = timedelta(
+                weeks=int(weeks or 0),
+                days=int(days or 0),
+                hours=int(hours or 0),
+                minutes=int(minutes or 0),
+                seconds=int(seconds or 0)
+            )
+        except OverflowError as e:
+            # more days than a timedelta can hold
+            raise ValueError(f'Invalid iCalendar duration: {ical}') from e
 
         if sign == '-':
             value = -value
